@@ -339,6 +339,7 @@ func (x *fleetExec) step(e engine.Event) {
 			// tainted (DESIGN 4.7) and only bit-for-bit transport of bins is compared
 			ok, g = true, 0
 			nd.tainted = true
+			nd.model.Tainted = true // sticky: sums of such weights can look dyadic again by chance
 		}
 		if !ok || !trackable(nd.mapping, v) || !nd.model.FitsAfter(w, g) {
 			return
